@@ -199,6 +199,22 @@ def m_occ_get(I, st, t, args, site, depth):
     return [(st, ("deref", occ))]
 
 
+def m_guard_value(I, st, t, args, site, depth):
+    """Ref::value / RefMut::value / value_mut / RefMulti::value on a guard: the stored record it points at (same as *guard)"""
+    g = _entry_root(I, st, args[0])
+    if lookup_of(g) is None and not (isinstance(g, tuple) and g and g[0] in ("cbarg",)):
+        return None
+    return [(st, ("deref", g))]
+
+
+def m_guard_key(I, st, t, args, site, depth):
+    g = _entry_root(I, st, args[0])
+    lk = lookup_of(g)
+    if lk is None:
+        return None
+    return [(st, lk[3] if lk[0] == "lookup" else lk[2])]
+
+
 def m_occ_insert(I, st, t, args, site, depth):
     occ = _entry_root(I, st, args[0])
     lk = lookup_of(occ)
@@ -248,6 +264,12 @@ STORE_MODELS = {
     DM + "iter_mut": m_simple("iter_mut"),
     DM + "contains_key": m_simple("contains_key"),
     DM + "into_read_only": m_simple("into_read_only"),
+    "dashmap::mapref::one::Ref::value": m_guard_value,
+    "dashmap::mapref::one::RefMut::value": m_guard_value,
+    "dashmap::mapref::one::RefMut::value_mut": m_guard_value,
+    "dashmap::mapref::one::Ref::key": m_guard_key,
+    "dashmap::mapref::one::RefMut::key": m_guard_key,
+    "dashmap::mapref::entry::OccupiedEntry::key": m_guard_key,
     "dashmap::mapref::entry::OccupiedEntry::get": m_occ_get,
     "dashmap::mapref::entry::OccupiedEntry::get_mut": m_occ_get,
     "dashmap::mapref::entry::OccupiedEntry::into_ref": m_occ_get,
